@@ -185,7 +185,7 @@ func (t *tool) constFacts(rep *Report) {
 			}
 			switch tv.Value.Kind() {
 			case constant.Int:
-				if v, exact := constant.Int64Val(tv.Value); exact && v >= 2 && v <= 1<<28 {
+				if v, exact := constant.Int64Val(tv.Value); exact && v >= 2 && v <= 1<<40 {
 					ints[v] = true
 				}
 			case constant.String:
